@@ -71,6 +71,7 @@ structure Sender where
 inductive Cmd where
   | start   -- `start_blocking()` (keeps the handle)
   | poll    -- one `blocking_done()`
+  | await   -- `while !blocking_done() { sleep }` : poll until the answer is `true` (`pre_block`)
   | drop    -- drop the `BlockingHandle`
   | stop    -- `stop_blocking()` (= `release_all`, no state change)
   deriving DecidableEq, Repr
@@ -82,6 +83,7 @@ inductive CPc where
   | casLoad                   -- `biatomic.cas_load`
   | casXchg (c t : Nat)       -- `biatomic.cas_xchg` with the word read at `cas_load`
   | doneLoad                  -- `blocking.done_load`
+  | doneLoadW                 -- `blocking.done_load` inside the wait loop of `await`
   | pop                       -- `blocking.queue_pop`
   | redisp (u : Nat)          -- `blocking.redispatch`
   | fin
@@ -169,6 +171,7 @@ def next (held : Bool) : List Cmd → CPc × List Cmd
   | .start :: p => if held then next held p else (.casLoad, p)
   | .drop :: p => if held then (.casLoad, p) else next held p
   | .poll :: p => (.doneLoad, p)
+  | .await :: p => (.doneLoadW, p)
   | .stop :: p => (.pop, p)
 
 def advance (c : Ctrl) (held : Bool) : Ctrl :=
@@ -190,6 +193,10 @@ def stepC (sh : Shared) (c : Ctrl) : Option (Shared × Ctrl × Obs) :=
         some ({ sh with count := (oc + 1) % U32, term := (ot + 1) % U32 }, advance c true, .tau)
     else some (sh, { c with pc := .casLoad }, .tau)
   | .doneLoad => some (sh, advance c c.held, .polled (sh.running == 0))
+  | .doneLoadW =>
+    -- the loop is left only with the answer `true`
+    if sh.running == 0 then some (sh, advance c c.held, .polled true)
+    else some (sh, c, .polled false)
   | .pop =>
     match sh.queue with
     | [] => some (sh, advance c c.held, .tau)
@@ -257,6 +264,7 @@ def CPc.point : CPc → String
   | .casLoad => "biatomic.cas_load"
   | .casXchg _ _ => "biatomic.cas_xchg"
   | .doneLoad => "blocking.done_load"
+  | .doneLoadW => "blocking.done_load"
   | .pop => "blocking.queue_pop"
   | .redisp _ => "blocking.redispatch"
   | .fin => "end"
